@@ -108,9 +108,7 @@ func (a ActivityVocabularyType) MarshalJSON() ([]byte, error) {
 	if len(a) == 0 {
 		return nil, nil
 	}
-	b := make([]byte, 0)
-	JSONWriteStringValue(&b, string(a))
-	return b, nil
+	return jsonString(string(a)), nil
 }
 
 // GobEncode
@@ -564,9 +562,7 @@ func (m MimeType) MarshalJSON() ([]byte, error) {
 	if len(m) == 0 {
 		return nil, nil
 	}
-	b := make([]byte, 0)
-	JSONWriteStringValue(&b, string(m))
-	return b, nil
+	return jsonString(string(m)), nil
 }
 
 // GobEncode
